@@ -74,6 +74,32 @@ SPEC = {
 }
 
 
+def _cam(I, t):
+    m = I.mod("tdfCalibrationData")
+    return m.SeelabCameraData(rotation_matrix=I.farray(f"{t}.rot", (3, 3), 64), translation_vector=I.farray(f"{t}.tr", (3,), 64),
+                              focus=I.farray(f"{t}.foc", (2,), 64), optical_center=I.farray(f"{t}.oc", (2,), 64),
+                              radial_distortion=I.farray(f"{t}.rad", (2,), 64), decentering=I.farray(f"{t}.dec", (2,), 64),
+                              thin_prism=I.farray(f"{t}.thin", (2,), 64), view_port=B._viewport(I, t))
+
+
+def _calib_new(I):
+    m = I.mod("tdfCalibrationData")
+    np = I.np
+    return m.CalibrationDataBlock(m.DistorsionModel(0), np.zeros(3, dtype="<f4"), np.zeros((3, 3), dtype="<f4"), np.zeros(3, dtype="<f4"),
+                                  np.zeros((0,), dtype="<i2"), [])
+
+
+def _calib_add(I, b, t):
+    np = I.np
+    b.cam_data.append(_cam(I, t))
+    b.cameras_calibration_map = np.array(list(range(len(b.cam_data))), dtype="<i2")
+
+
+SPEC_EXTRA = {
+    "calib": dict(kind="calib", new=_calib_new, add=_calib_add, remove=None, items=lambda b: b.cam_data),
+}
+
+
 def _fpcal_explicit(I, t):
     b = I.mod("tdfForcePlatformsCalibration").ForcePlatformsCalibrationDataBlock()
     b.platforms = [(I.ibv(f"{t}.ch", "i16"), _fpinfo(I, t))]
@@ -217,8 +243,53 @@ def decode_case(cls, mutation):
     return h
 
 
+def populated_case(cls, mutation):
+    """A and B each hold their own item; A is mutated; B must not notice."""
+    def h(I):
+        I.fresh_modules()
+        spec = ALL[cls]
+        a = spec["new"](I)
+        b = spec["new"](I)
+        spec["add"](I, a, "pa")
+        spec["add"](I, b, "pb")
+        b0 = snap(I, spec, b)
+        I.prove(f"C20.{cls}.populated_block_holds_its_item", b0[0] == 1)
+        try:
+            if mutation == "add":
+                spec["add"](I, a, "a1")
+            elif mutation == "remove":
+                spec["remove"](a)
+            elif mutation == "edit":
+                _edit_in_place(I, cls, a)
+            elif mutation == "add_edit_remove":
+                spec["add"](I, a, "a1")
+                _edit_in_place(I, cls, a)
+                if spec["remove"]:
+                    spec["remove"](a)
+            exc = None
+        except Exception as e:  # noqa: BLE001
+            exc = e
+        I.observe("exc", type(exc).__name__ if exc else None)
+        b1 = snap(I, spec, b)
+        I.observe("b", [b1[0], b1[2]])
+        I.prove(f"C20.{cls}.populated_sibling_unchanged", same(I, b0, b1), mutation)
+        c = spec["new"](I)
+        I.prove(f"C20.{cls}.later_instance_starts_empty", snap(I, spec, c)[0] == 0, mutation)
+        I.goal("done")
+    return h
+
+
+ALL = dict(SPEC)
+ALL.update(SPEC_EXTRA)
+
+
 def instances(tier):
     out = []
+    for cls, spec in ALL.items():
+        for m in ["add", "edit"] + (["remove"] if spec["remove"] else []) + ([] if tier == "quick" else ["add_edit_remove"]):
+            if cls == "calib" and m == "edit":
+                continue
+            out.append(Instance(f"{cls}.populated.{m}", populated_case(cls, m), goals=["done"]))
     for cls, spec in SPEC.items():
         muts = ["add", "add2"] + (["add_remove"] if spec["remove"] else []) + (["assign", "assign_shared", "assign_from_other"] if "assign" in spec else [])
         for m in muts:
